@@ -295,6 +295,7 @@ func gen(seed int64, n int, tier string) []interface{} {
 		h.Tables = mode == "real" && r.Intn(3) == 0
 		h.Order = genOrder(r)
 		h.Decoy = r.Intn(4) == 0
+		h.KeepEmpty = mode == "synth" && r.Intn(2) == 0
 		out = append(out, h)
 	}
 	return out
